@@ -153,12 +153,15 @@ def check_C13(v, tier, rng):
         dx = [bytes(a ^ b for a, b in zip(x, y)) for x, y in zip(d1, d2)]
         dc = [gf.scale_shard(x, c) for x in d1]
         ops = []
-        for data in (d1, d2, dx, dc, [bytes(sb)] * K):
-            ops.append('E.new %s %s %d %d %d' % (codec, engine, K, R, sb))
+        reuse = rng.random() < 0.5      # one encoder for all five data sets (rounds separated by drops) or fresh ones
+        for t, data in enumerate((d1, d2, dx, dc, [bytes(sb)] * K)):
+            ops.append(('E.reset %d %d %d' % (K, R, sb)) if (reuse and t) else ('E.new %s %s %d %d %d' % (codec, engine, K, R, sb)))
             ops += ['E.add ' + hexs(x) for x in data]
             ops.append('E.encode -')
         cases.append(Case('lin%d' % n, ops, dict(codec=codec, engine=engine, K=K, R=R, sb=sb, c=c, cls=cls, s1=s1, s2=s2)))
-    impl = run_cases('impl', cases, 'C13')
+    poison = rng.randint(1, 2 ** 62)
+    v.extra['poison_seed'] = poison
+    impl = run_cases('impl', cases, 'C13', poison=poison)
     model = run_cases('model', cases, 'C13')
     for c in cases:
         m = c.meta
